@@ -44,7 +44,7 @@ def UNW(n):
     return ['--unwind', str(n), '--unwinding-assertions']
 
 
-PART = ['--unwind', '3']          # loops cut after 2 iterations, NO unwinding assertions: partial correctness
+PART = ['--unwind', '3', '--no-unwinding-assertions']          # loops cut after 2 iterations, NO unwinding assertions: partial correctness
 
 
 # ---------------------------------------------------------------- native replay argument builders
@@ -109,23 +109,28 @@ GROUPS = [
     G('C16.O1.triangular', 'h_triangular', 'proved', defs=['C16_EXACT_LIBM'], backends=(SAT, CADICAL), thorough=True,
       native=nat_simple('triangular', 'lo', 'md', 'hi'), note="CBMC's exact sqrt model; symbolic multiply/divide"),
     # ---- O2: bounded unwind n <= 3
-    G('C16.O2.loaded_dice', 'h_loaded_dice', 'bounded-unwind', flags=UNW(4), native=nat_probs('loaded_dice'), expect='failed',
+    G('C16.O2.loaded_dice', 'h_loaded_dice', 'bounded-unwind', flags=UNW(4), backends=(Z3, SAT), native=nat_probs('loaded_dice'), expect='failed',
       note='expected: probabilities summing to 1 - eps (eps <= 1e-3, accepted by sums_to_one) fall through the cumulative search'),
-    G('C16.O2.alias_create', 'h_alias_create', 'bounded-unwind', flags=UNW(4) + CONV, native=nat_probs('alias')),
+    G('C16.O2.alias_create', 'h_alias_create', 'bounded-unwind', defs=['C16_N=2'], flags=UNW(3) + CONV, native=nat_probs('alias'), note='n <= 2 (n <= 3 does not finish in 300 s: C16.O2.alias_create_n3, --thorough)'),
+    G('C16.O2.alias_create_n3', 'h_alias_create', 'bounded-unwind', flags=UNW(4) + CONV, backends=(SAT, ['--refine-arithmetic'], CADICAL), native=nat_probs('alias'), thorough=True, note='n <= 3'),
     G('C16.O2.alias_sample', 'h_alias_sample', 'bounded-unwind', flags=UNW(4) + CONV, native=None),
     G('C16.O2.binomial', 'h_binomial', 'bounded-unwind', flags=UNW(4), native=nat_binomial),
-    G('C16.O2.hyperexponential', 'h_hyperexp', 'bounded-unwind', repl=[EXP_STUB], flags=UNW(4), native=nat_probs('hyperexp', extra=('ma',)), expect='failed',
+    G('C16.O2.hyperexponential', 'h_hyperexp', 'bounded-unwind', repl=[EXP_STUB], flags=UNW(4), backends=(Z3, SAT), native=nat_probs('hyperexp', extra=('ma',)), expect='failed',
       note='expected: inherits the loaded_dice defect, then reads ma[n]; cmi_random_exp_not_hot replaced by its contract (>= 0, finite)'),
     G('C16.O2.hypoexponential', 'h_hypoexp', 'bounded-unwind', repl=[EXP_STUB], flags=UNW(4), native=None,
       note='cmi_random_exp_not_hot replaced by its contract (>= 0, finite)'),
-    G('C16.O2.geometric', 'h_geometric', 'bounded-unwind', defs=['C16_HOT_ONLY_EXP'], flags=CONV + ['--float-overflow-check'],
+    G('C16.O2.geometric', 'h_geometric', 'bounded-unwind', defs=['C16_HOT_ONLY_EXP'], repl=[EXP_STUB], flags=CONV + ['--float-overflow-check'],
       native=nat_simple('geometric', 'p'), expect='failed',
-      note='expected: (unsigned)ceil(exp/denom) out of range for tiny p, 0 for p = 1 or raw = 0; listed assumption: ziggurat hot path only (idx <= zig_max)'),
+      note='expected: (unsigned)ceil(exp/denom) out of range for tiny p, 0 for p = 1 or raw = 0; listed assumption: ziggurat hot path only (idx <= zig_max); log() is a contract, so the native replay is the arbiter of this counterexample'),
+    G('C16.O2.geometric_p1', 'h_geometric', 'bounded-unwind', defs=['C16_HOT_ONLY_EXP', 'C16_GEO_P=1.0'], repl=[EXP_STUB], flags=CONV + ['--float-overflow-check'],
+      native=lambda v, r: ['geometric', '1.0'], expect='failed', note='expected: p = 1 gives denom = -log(0) = +inf, quotient 0, result 0 on EVERY path (the canary is unreachable for that reason)'),
+    G('C16.O2.geometric_tiny', 'h_geometric', 'bounded-unwind', defs=['C16_HOT_ONLY_EXP', 'C16_GEO_P=0x1p-60'], repl=[EXP_STUB], flags=CONV + ['--float-overflow-check'],
+      native=lambda v, r: ['geometric', '0x1p-60'], expect='failed', note='expected: p < 2^-53 gives 1-p == 1, denom = -0.0, quotient -inf/NaN: float->unsigned conversion out of range on EVERY path'),
     # ---- O3: table facts
     G('C16.O3.tables_exp', 'h_tables_exp', 'proved', flags=['--unwind', '257', '--unwinding-assertions']),
     G('C16.O3.tables_nor', 'h_tables_nor', 'proved', flags=['--unwind', '257', '--unwinding-assertions']),
-    G('C16.O3.exp_hot', 'h_exp_hot', 'proved', defs=['C16_HOT_ONLY_EXP'], backends=(SAT, CADICAL, Z3), native=nat_simple('std_exponential')),
-    G('C16.O3.nor_hot', 'h_nor_hot', 'proved', defs=['C16_HOT_ONLY_NOR'], backends=(SAT, CADICAL, Z3), native=nat_simple('std_normal')),
+    G('C16.O3.exp_hot', 'h_exp_hot', 'proved', defs=['C16_HOT_ONLY_EXP'], repl=[EXP_STUB], backends=(SAT, CADICAL, Z3), native=nat_simple('std_exponential')),
+    G('C16.O3.nor_hot', 'h_nor_hot', 'proved', defs=['C16_HOT_ONLY_NOR'], repl=[NOR_STUB], backends=(SAT, CADICAL, Z3), native=nat_simple('std_normal')),
     # ---- O4: partial correctness, loops cut (no unwinding assertions)
     G('C16.O4.exp_not_hot', 'h_p_exp_not_hot', 'bounded-unwind', flags=PART, native=None),
     G('C16.O4.nor_not_hot', 'h_p_nor_not_hot', 'bounded-unwind', repl=[EXP_STUB], flags=PART, native=None,
@@ -143,7 +148,9 @@ GROUPS = [
     G('C16.O4.gamma', 'h_p_gamma', 'bounded-unwind', repl=[NOR_STUB], flags=PART, native=nat_simple('gamma', 'shape', 'scale')),
     G('C16.O4.chisquared', 'h_p_chisquared', 'bounded-unwind', repl=[NOR_STUB], flags=PART, native=None, thorough=True),
     G('C16.O4.std_beta', 'h_p_std_beta', 'bounded-unwind', repl=[GAMMA_STUB], flags=PART, native=nat_simple('std_beta', 'a', 'b'),
-      note='std_gamma replaced by its contract (>= 0, not NaN), which FAILS for shape <= 1/3 (C16.O4.std_gamma)'),
+      note='std_gamma replaced by the contract "> 0 and finite" (listed, UNDISCHARGED strengthening; and C16.O4.std_gamma FAILS for shape <= 1/3)'),
+    G('C16.O4.std_beta_weak', 'h_p_std_beta', 'bounded-unwind', defs=['C16_GAMMA_WEAK'], repl=[GAMMA_STUB], flags=PART, native=nat_simple('std_beta', 'a', 'b'), thorough=True, expect='failed',
+      note='std_gamma replaced by exactly the proved contract (>= 0, not NaN): 0/(0+0) and inf/(inf+y) are NaN; not reproducible natively unless std_gamma returns 0 or inf'),
     G('C16.O4.beta', 'h_p_beta', 'bounded-unwind', repl=[GAMMA_STUB], flags=PART, native=nat_simple('beta', 'a', 'b', 'lo', 'hi'),
       backends=(SAT, CADICAL, Z3), note='std_gamma replaced by its contract'),
     G('C16.O4.PERT', 'h_p_pert', 'bounded-unwind', repl=[GAMMA_STUB], flags=PART, native=nat_simple('pert', 'lo', 'md', 'hi'),
@@ -401,7 +408,9 @@ def run_group(repo, outdir, gen, g, nat, thorough):
     for cls, n in sorted(folded.items()):
         res['obligations'].append({'name': '%s.%s.*' % (entry, cls), 'desc': 'C16-%s [built-in check]: %d %s checks on the path' % (gid.split('.')[1], n, cls),
                                    'status': 'SUCCESS', 'file': '', 'line': '', 'func': entry})
-    if canaries != 1 or fired != canaries:
+    if canaries == 1 and fired == 0 and res['status'] == 'failed':
+        res['reason'] = 'the end of the entry is not reachable because EVERY path fails an obligation first (assert-then-assume); reachability up to the failing obligation is shown by its counterexample'
+    elif canaries != 1 or fired != canaries:
         res['status'] = 'error'
         res['reason'] = 'vacuity guard: %d canaries, %d fired (assumptions contradictory or end of entry not reachable)' % (canaries, fired)
     else:
